@@ -100,6 +100,7 @@ func (qs *QueryStore) RebuildIndexes() error {
 		}
 	}
 
+	verifPoint("rebuild.dropped", nil)
 	// Create new index entries in a single transaction
 	return qs.st.DB.Update(func(txn *badger.Txn) error {
 		t := reflect.TypeOf(qs.st.Type())
@@ -164,6 +165,7 @@ func (qs *QueryStore) Flush() {
 
 func (qs *QueryStore) handleChange(id string, before, after interface{}) {
 	qs.tq.Do(func() {
+		verifPoint("index.begin", id)
 		err := qs.updateIndex(id, before, after)
 		if err != nil {
 			if qs.log != nil {
@@ -218,6 +220,7 @@ func (qs *QueryStore) updateIndex(id string, before, after interface{}) error {
 	if errmsg != "" {
 		return errors.New("failed to update resource [" + id + "] index:" + errmsg)
 	}
+	verifPoint("index.committed", id)
 	if updated {
 		qc := store.QueryChange(queryChange{
 			qs:     qs,
